@@ -71,3 +71,13 @@ Theorem C19_zeroize_after_const_default : forall (A : Type) (zero : A -> A) ds (
   exists t t', const_default_arr ds d = Some t /\ zeroize_arr zero ds t = Ret t' /\
                leaves t' = repeat (zero d) (val ds).
 Proof. exact (@zeroize_after_const_default). Qed.
+
+(* ---- tie to the current source (tools/ga2coq, coq/gen/GenDeleg.v): the bodies of the trait
+        impls as they stand in the source now are the delegations the model implements ---- *)
+From Coq Require Import String.
+From GA Require Import Deleg DelegTie.
+From GAGen Require Import GenDeleg.
+Local Open Scope string_scope.
+Theorem C19_source_zeroize :
+  lookup "Zeroize::zeroize" gen_delegations = Some (DEach (VAsMutSlice "self") "zeroize").
+Proof. rewrite !tie_deleg_of. reflexivity. Qed.
